@@ -135,6 +135,8 @@ def main(argv):
 
     replay_dir = os.path.join(vf.VERIF, "evidence", "replay")
     violations, harness_errors, inconclusive = [], [], []
+    abstract_cex = []
+    inductive = {c["name"]: c.get("inductive") for c in claims}
     for r in results:
         st = r["status"]
         if st == "CONFIRMED":
@@ -149,6 +151,12 @@ def main(argv):
             r["replay"] = {"rc": rc, "path": path, "out": out}
             if rc == 1:
                 violations.append((r["name"], path, out, r.get("messages")))
+            elif inductive.get(r["name"]):
+                # counterexample lives in an abstract pre-state (inductive step); without a concrete history
+                # that reaches it, it is reported as inconclusive: the concrete companion claims of the same
+                # property (literal histories / fills) are the ones that can turn it into a VIOLATION
+                inconclusive.append(r["name"])
+                abstract_cex.append({"claim": r["name"], "state": r.get("cex")})
             else:
                 harness_errors.append("counterexample of %s does not reproduce on the real code (rc=%d): %s\n%s\nmessages=%s" % (r["name"], rc, path, out, r.get("messages")))
         elif st == "UNKNOWN":
@@ -175,7 +183,10 @@ def main(argv):
                 pass
 
     for n in inconclusive:
-        print("INCONCLUSIVE claim=%s (time budget or solver unknown; not counted as discharged)" % n)
+        if any(a["claim"] == n for a in abstract_cex):
+            print("INCONCLUSIVE claim=%s (inductive step refuted from an abstract pre-state %s; no concrete history reproduces it here - see the concrete companion claims)" % (n, [a["state"] for a in abstract_cex if a["claim"] == n][0]))
+        else:
+            print("INCONCLUSIVE claim=%s (time budget or solver unknown; not counted as discharged)" % n)
     for l in known_lines:
         print(l)
     for e in harness_errors:
